@@ -73,7 +73,6 @@ HISTORY = {
     "C13-r7-1": "round 7. first run: missed; text cases now also write two arrays one after the other into one StringIO / BytesIO and load them back in order (max_rows)",
     "C08-r7-2": "round 7. first run: missed by C08 and C10; the reduce form now also calls the method of the same name (poly.prod(), .all(), .max() ... with and without arguments) and multiply.reduce operands come with names that do not start at q0 and in narrow / unsigned dtypes",
     "C19-r7-1": "round 7. first run: missed; lead_exponent / lead_coefficient / sortable_proxy are now also called with positional flags (poly, graded, reverse)",
-    "C02-r7-2": "round 7. first run: missed; the carrier rider now also carries the integers as int16 / uint8 / int8 / uint16 whenever every single power fits that type (the product across arguments is formed in 64 bit), with values 12 and 20 in the pool",
     "C12-r7-1": "round 7. first run: missed by C12 and C09; the dtype request is now also made on data spelled as nested lists, tuples of lists and lists of polynomial arrays",
     "C12-r7-2": "round 7. reshape ignoring order=: values end up at other positions, dtype and the set of values unchanged; caught by C09 (element placement), not a C12 clause",
     "C11-r7-1": "round 7. first run: missed; the division guard now also hands the non-constant divisor over as list / tuple / nested list containing polynomials (numpoly spelling, or numpy spelling with a polynomial dividend)",
@@ -142,6 +141,8 @@ HISTORY = {
     "C04-r12-1": "round 12. first run: missed by C04 and C12; operands now also carry uint64 coefficients beyond 2**53",
     "C04-r12-2": "round 12. first run: missed by C04 and C12; a second operand may now be a view of the first one (its transpose, or a reshape with a new axis)",
     "C20-r12-2": "round 12. successive derivatives by position under retain_names=False: caught by C06 (option dimension)",
+    "C16-r3G2-2": "round 3. patch rebased onto the later repository fix of to_sympy (display signs); still caught by C16",
+    "C02-r7-2": "round 7. first run: missed; the carrier rider now also carries the integers as int16 / uint8 / int8 / uint16 whenever every single power fits that type, and four fixed cases (e.g. q0*q1 at (20, 20)) make sure a product across arguments that does not fit is exercised in every run",
     "C06-2": "first run: caught by C06, missed by C15; C15's derivative entry now differentiates with respect to several variables",
 }
 REJECTED = [
